@@ -128,17 +128,35 @@ class _Extract:
                 kw, ob = lp[k]
                 cb = match_brace(item.src.masked, ob)
                 head = item.src.masked[kw:ob]
-                mh = re.match(r'for\s+([A-Za-z_][A-Za-z0-9_]*)\s+in\s+&(mut\s+)?([A-Za-z_][A-Za-z0-9_.]*)\s*$', head)
-                if not mh:
-                    raise LostAnchor('%s: loop #%d is not of the form `for X in &[mut] V`: `%s`' % (item.name, k, head.strip()))
-                if re.search(r'\bcontinue\b', item.src.masked[ob:cb]):
-                    raise LostAnchor('%s: loop #%d contains `continue`; R8 desugaring refused' % (item.name, k))
-                x, mut, v = mh.group(1), ('mut ' if mh.group(2) else ''), mh.group(3)
-                cuts.append((kw - item.start, ob + 1 - item.start,
-                             'let mut %s: usize = 0;\n        while %s < %s.len()\n%s\n        {\n            let %s = &%s%s[%s];'
-                             % (iname, iname, v, clauses.strip('\n'), x, mut, v, iname)))
+                over = tup[3] if len(tup) > 3 else None
+                if over is not None:
+                    # R8 over an iterator expression: `for X in <EXPR>` where <EXPR> (whitespace-normalised) must be the
+                    # declared one; the elements are those of the Vec `<vec_fn>(..)` declared by the unit (its contract
+                    # states which elements, in which order, the iterator yields)
+                    want_expr, vec_decl, vec_name = over
+                    mh = re.match(r'for\s+([A-Za-z_][A-Za-z0-9_]*)\s+in\s+(.*?)\s*$', head, re.S)
+                    got = norm_ws(item.src.text[kw:ob]).split(' in ', 1)[1].strip() if mh else None
+                    if not mh or got != norm_ws(want_expr):
+                        raise LostAnchor('%s: loop #%d does not iterate `%s`: `%s`' % (item.name, k, want_expr, head.strip()))
+                    if re.search(r'\bcontinue\b', item.src.masked[ob:cb]):
+                        raise LostAnchor('%s: loop #%d contains `continue`; R8 desugaring refused' % (item.name, k))
+                    x = mh.group(1)
+                    cuts.append((kw - item.start, ob + 1 - item.start,
+                                 '%s\n        let mut %s: usize = 0;\n        while %s < %s.len()\n%s\n        {\n            let %s = %s[%s];'
+                                 % (vec_decl, iname, iname, vec_name, clauses.strip('\n'), x, vec_name, iname)))
+                    self.applied.append(('R8-desugar `for %s in %s` into an index loop over `%s`' % (x, want_expr, vec_decl), 1))
+                else:
+                    mh = re.match(r'for\s+([A-Za-z_][A-Za-z0-9_]*)\s+in\s+&(mut\s+)?([A-Za-z_][A-Za-z0-9_.]*)\s*$', head)
+                    if not mh:
+                        raise LostAnchor('%s: loop #%d is not of the form `for X in &[mut] V`: `%s`' % (item.name, k, head.strip()))
+                    if re.search(r'\bcontinue\b', item.src.masked[ob:cb]):
+                        raise LostAnchor('%s: loop #%d contains `continue`; R8 desugaring refused' % (item.name, k))
+                    x, mut, v = mh.group(1), ('mut ' if mh.group(2) else ''), mh.group(3)
+                    cuts.append((kw - item.start, ob + 1 - item.start,
+                                 'let mut %s: usize = 0;\n        while %s < %s.len()\n%s\n        {\n            let %s = &%s%s[%s];'
+                                 % (iname, iname, v, clauses.strip('\n'), x, mut, v, iname)))
+                    self.applied.append(('R8-desugar `for %s in &%s%s` into an index loop over %s' % (x, mut, v, iname), 1))
                 cuts.append((cb - item.start, cb - item.start, '%s    %s += 1;\n        ' % (tail_hint, iname)))
-                self.applied.append(('R8-desugar `for %s in &%s%s` into an index loop over %s' % (x, mut, v, iname), 1))
         edits = [(off, off, mk) for off, mk in inserts] + cuts
         for a, b, mk in sorted(edits, key=lambda e: e[0], reverse=True):
             # inserts that fall inside a replaced loop are dropped with the loop
